@@ -1,7 +1,7 @@
 """Per-property registry and the generic check runner."""
 import json, os, sys, time
 from . import common as C
-from . import gen_civil, gen_posix
+from . import gen_civil, gen_posix, gen_zone
 
 REGISTRY = {}
 
@@ -26,6 +26,15 @@ def op_histogram(cases):
         k = c.split(" ", 1)[0]
         h[k] = h.get(k, 0) + 1
     return h
+
+
+def zone_hex(case, zones):
+    a = case.split()
+    if len(a) > 1:
+        for zid, data in zones:
+            if zid == a[1]:
+                return data.hex()
+    return None
 
 
 def run_cases(pid, cases, work, harness_kw=None, env=None):
@@ -76,9 +85,17 @@ def run_property(pid, spec, tier, seed, work, t0, replay=None, no_prove=False):
     # ---- 2./3. build both sides, generate, run -----------------------
     cases = corpus_cases(pid)
     n_corpus = len(cases)
-    cases += spec["gen"](tier, rng)
+    g = spec["gen"](tier, rng)
+    env = None
+    zones = []
+    if isinstance(g, tuple):
+        g, zones = g
+        zt = os.path.join(work, "zones.txt")
+        gen_zone.write_table(zt, zones)
+        env = {"VERIF_ZONES": zt}
+    cases += g
     try:
-        impl, drvl, fails, binfo = run_cases(pid, cases, work, spec.get("harness_kw"))
+        impl, drvl, fails, binfo = run_cases(pid, cases, work, spec.get("harness_kw"), env=env)
     except RuntimeError as e:
         p = C.write_replay(pid, {"property": pid, "kind": "build-failure", "detail": str(e)[-4000:]})
         print(str(e)[-2000:])
@@ -87,7 +104,10 @@ def run_property(pid, spec, tier, seed, work, t0, replay=None, no_prove=False):
                          "checker_cmd": "coqc (make -C coq) + Print Assumptions", "trusted_base": C.TRUSTED_BASE,
                          "explanation": "build failure"}, time.time() - t0, 1)
         return 1
-    v = C.compare(cases, impl, drvl, fails, spec.get("norm"))
+    v = C.compare(cases, impl, drvl, fails, spec.get("norm"), ub_is_violation=spec.get("ub_is_violation", False))
+    if "post" in spec:
+        for (i, why) in spec["post"](cases, impl):
+            v.prop_fail.append((i, cases[i], impl[i], "", "", why))
 
     # ---- 4. decide ---------------------------------------------------
     rc = 0
@@ -108,7 +128,7 @@ def run_property(pid, spec, tier, seed, work, t0, replay=None, no_prove=False):
         new_prop.sort(key=lambda it: (len(it[1]), it[0]))
         idx, case, il, M, S, why = new_prop[0]
         p = C.write_replay(pid, {"property": pid, "kind": "failing-input", "seed": seed, "tier": tier,
-                                 "case": case, "implementation": il, "model": M, "specification": S, "why": why,
+                                 "case": case, "zone_bytes_hex": zone_hex(case, zones), "implementation": il, "model": M, "specification": S, "why": why,
                                  "others": [it[1] for it in new_prop[1:20]],
                                  "sanitizer": next((f[1] for f in fails), ""),
                                  "replay_cmd": "./check %s --replay <this file>" % pid})
@@ -178,3 +198,8 @@ reg("C05", gen=gen_civil.gen_c05)
 reg("C17", gen=gen_civil.gen_c17, exhaustive={"thorough": True})
 reg("C15", gen=gen_civil.gen_c15_helpers, exhaustive={"quick": True, "thorough": True})
 reg("C16", gen=gen_posix.gen_c16)
+reg("C01", gen=gen_zone.gen_c01)
+reg("C02", gen=gen_zone.gen_c02)
+reg("C03", gen=gen_zone.gen_c03)
+reg("C06", gen=gen_zone.gen_c06, post=gen_zone.post_c06)
+reg("C11", gen=gen_zone.gen_c11)
